@@ -52,6 +52,32 @@ static int imports_ar_read_signature(uint8_t *buffer, int file_size)
   return 0;
 }
 
+// Size of the member whose header starts at ptr, or -1 when the header or
+// the member does not lie inside the file or the size field is not a decimal
+// number.
+static int imports_ar_member_size(const uint8_t *buffer, int file_size, int ptr)
+{
+  if (file_size - ptr < (int)sizeof(Header)) { return -1; }
+
+  const Header *header = (const Header *)(buffer + ptr);
+  int64_t size = 0;
+  int i;
+
+  for (i = 0; i < 10; i++)
+  {
+    if (header->size[i] == ' ') { break; }
+    if (header->size[i] < '0' || header->size[i] > '9') { return -1; }
+
+    size = (size * 10) + (header->size[i] - '0');
+
+    if (size > file_size) { return -1; }
+  }
+
+  if (size > file_size - ptr - (int)sizeof(Header)) { return -1; }
+
+  return size;
+}
+
 static int imports_ar_read_lookup_table(uint8_t *buffer, int size)
 {
   int entry_count;
@@ -84,6 +110,24 @@ int imports_ar_verify(uint8_t *buffer, int file_size)
   if (imports_ar_read_signature(buffer, file_size) != 0)
   {
     return -1;
+  }
+
+  // Every member has to lie inside the file.
+  int ptr = 8;
+
+  while (ptr < file_size)
+  {
+    int size = imports_ar_member_size(buffer, file_size, ptr);
+
+    if (size < 0)
+    {
+      printf("Not a library archive file.\n");
+      return -1;
+    }
+
+    if ((size & 1) != 0) { size++; }
+
+    ptr += 60 + size;
   }
 
   return 0;
@@ -219,7 +263,6 @@ int imports_ar_find_code_from_symbol(
   //int section_offset;
   Header *header;
   int ptr = 8;
-  int i;
   int ret = -1;
 
   *function_offset = 0;
@@ -244,15 +287,12 @@ int imports_ar_find_code_from_symbol(
     printf("            end: %02x %02x\n", header->end[0], header->end[1]);
 #endif
 
-    int size = 0;
+    int size = imports_ar_member_size(buffer, file_size, ptr);
 
-    for (i = 0; i < 10; i++)
-    {
-      if (header->size[i] == ' ') { break; }
-      size = (size * 10) + (header->size[i] - '0');
-    }
+    if (size < 0) { break; }
 
     if (strncmp(header->file_identifier, "/               ", 16) != 0 &&
+        size >= 4 &&
         buffer[ptr + 60] == 0x7f &&
         buffer[ptr + 61] == 'E' &&
         buffer[ptr + 62] == 'L' &&
